@@ -281,6 +281,28 @@ def check_parse_domain(dom_opt: bool, modes0: int, modes1: int, halo_given: bool
     return ok
 
 
+def check_parse_reference_origin(lat_zero: bool, lon_zero: bool, ref_int: bool, two_towers: bool, tower_at_origin: bool) -> bool:
+    """
+    post: _
+    """
+    # the reference origin may lie on the equator / the Greenwich meridian (0 or 0.0 are valid coordinates, not "absent"):
+    # the towers' local coordinates - the measurement point of the single run - are still those of latlon_to_xy
+    rl = (0 if ref_int else 0.0) if lat_zero else 50.95
+    ro = (0 if ref_int else 0.0) if lon_zero else 11.586
+    lat, lon = (rl, ro) if tower_at_origin else (rl + 0.002, ro + 0.003)
+    raw = _raw(**dict(_BASE, two_towers=two_towers, lat=lat, lon=lon))
+    raw["domain"]["ref_lat"] = rl
+    raw["domain"]["ref_lon"] = ro
+    a, same = _roundtrip(raw)
+    t = a.towers[0]
+    ok = same and (a.domain.ref_lat, a.domain.ref_lon) == (rl, ro)
+    ok = ok and (t.x, t.y) == latlon_to_xy(lat, lon, rl, ro)
+    if two_towers:
+        t2 = a.towers[1]
+        ok = ok and (t2.x, t2.y) == latlon_to_xy(lon, lat, rl, ro)
+    return ok
+
+
 def check_parse_met(ustar_given: bool, ustar: int, mol_given: bool, mol: int, ws_given: bool, ws: int, wd_given: bool, wd: int,
                     z0_given: bool, z0: int) -> bool:
     """
